@@ -57,6 +57,7 @@ pub const KINDS: &[&str] = &[
     "mod_mimic",       // 50 (whole data rows / columns painted like the fixed pattern: solid or clock-like)
     "geo_frame",       // 51 (the symbol embedded in a frame of light / dark / alternating modules: a captured quiet zone)
     "cw_foreign",      // 52 (in-radius errors whose syndromes obey ANOTHER block's recurrence on a chosen set of rows)
+    "snd_surplus",     // 53 (the renderer is handed a codeword buffer longer than the symbol needs)
 ];
 
 pub fn kind_id(name: &str) -> u8 {
@@ -77,6 +78,9 @@ pub enum Op {
     // S2: data || EC codewords
     CwXor { pos: u32, mask: u8 },
     CwSet { pos: u32, val: u8 },
+    /// the producer hands the renderer a codeword vector with `n` surplus bytes (value `val`) behind the symbol's own
+    /// codewords - a caller reusing a larger buffer; the surplus must be ignored
+    CwSurplus { n: u32, val: u8 },
     // S4: pixel buffer + width
     PxFlip { idx: u32 },
     PxSet { idx: u32, val: bool },
@@ -147,7 +151,7 @@ impl Op {
     pub fn stage(&self) -> Stage {
         match self {
             Op::SndXor { .. } | Op::SndSet { .. } | Op::SndSwap { .. } | Op::SndDup { .. } => Stage::S1,
-            Op::CwXor { .. } | Op::CwSet { .. } | Op::NextCall => Stage::S2,
+            Op::CwXor { .. } | Op::CwSet { .. } | Op::CwSurplus { .. } | Op::NextCall => Stage::S2,
             _ => Stage::S4,
         }
     }
@@ -246,6 +250,19 @@ pub fn apply_s1(faults: &[Fault], data: &mut Vec<u8>, fired: &mut [bool]) {
     }
 }
 
+/// Surplus bytes the producer passes to the renderer behind the symbol's codewords.
+pub fn surplus_of(faults: &[Fault]) -> Vec<u8> {
+    let mut out = Vec::new();
+    for f in faults {
+        if let Op::CwSurplus { n, val } = &f.op {
+            for i in 0..*n {
+                out.push(val.wrapping_add((i % 251) as u8));
+            }
+        }
+    }
+    out
+}
+
 pub fn apply_s2(faults: &[Fault], cw: &mut [u8], fired: &mut [bool]) {
     for (fi, f) in faults.iter().enumerate() {
         let n = cw.len();
@@ -261,6 +278,12 @@ pub fn apply_s2(faults: &[Fault], cw: &mut [u8], fired: &mut [bool]) {
                 let p = *pos as usize;
                 if p < n && cw[p] != *val {
                     cw[p] = *val;
+                    fired[fi] = true;
+                }
+            }
+            Op::CwSurplus { n: extra, .. } => {
+                // applied by the executor at the rendering call only (see `surplus_of`)
+                if *extra > 0 {
                     fired[fi] = true;
                 }
             }
@@ -457,6 +480,7 @@ fn op_to_json(op: &Op) -> J {
         Op::SndDup { pos } => a("snd_dup", vec![J::i(*pos as usize)]),
         Op::CwXor { pos, mask } => a("cw_xor", vec![J::i(*pos as usize), J::i(*mask as usize)]),
         Op::CwSet { pos, val } => a("cw_set", vec![J::i(*pos as usize), J::i(*val as usize)]),
+        Op::CwSurplus { n, val } => a("cw_surplus", vec![J::i(*n as usize), J::i(*val as usize)]),
         Op::PxFlip { idx } => a("px_flip", vec![J::i(*idx as usize)]),
         Op::PxSet { idx, val } => a("px_set", vec![J::i(*idx as usize), J::Bool(*val)]),
         Op::GeoTrunc { len } => a("geo_trunc", vec![J::i(*len as usize)]),
@@ -501,6 +525,7 @@ fn op_from_json(j: &J) -> Result<Op, String> {
         "snd_dup" => Op::SndDup { pos: n(1)? },
         "cw_xor" => Op::CwXor { pos: n(1)?, mask: n(2)? as u8 },
         "cw_set" => Op::CwSet { pos: n(1)?, val: n(2)? as u8 },
+        "cw_surplus" => Op::CwSurplus { n: n(1)?, val: n(2)? as u8 },
         "px_flip" => Op::PxFlip { idx: n(1)? },
         "px_set" => Op::PxSet {
             idx: n(1)?,
@@ -681,6 +706,7 @@ impl Trace {
                 Op::SndDup { pos } => h.u32s(&[4, *pos]),
                 Op::CwXor { pos, mask } => h.u32s(&[5, *pos, *mask as u32]),
                 Op::CwSet { pos, val } => h.u32s(&[6, *pos, *val as u32]),
+                Op::CwSurplus { n, val } => h.u32s(&[106, *n, *val as u32]),
                 Op::PxFlip { idx } => h.u32s(&[7, *idx]),
                 Op::PxSet { idx, val } => h.u32s(&[8, *idx, *val as u32]),
                 Op::GeoTrunc { len } => h.u32s(&[9, *len]),
